@@ -923,7 +923,7 @@ theorem parse_lines_render (pf : ParseFloat)
 /-- the (route, target) pairs `Table.String()` writes, in its order -/
 def pairs (t : Table) : List (Route × Target) :=
   (hostOrder t).flatMap (fun h => (t.get h).flatMap (fun r =>
-    (r.targets.filter (fun t => decide (0 < t.weight))).map (fun tg => (r, tg))))
+    r.targets.map (fun tg => (r, tg))))
 
 theorem config_eq_pairs (t : Table) : config t = (pairs t).map (fun x => renderTarget x.1 x.2) := by
   simp only [config, pairs, List.map_flatMap, List.map_map]
@@ -936,8 +936,8 @@ theorem defsOfTable_eq_pairs (t : Table) :
 
 theorem mem_pairs (t : Table) (x : Route × Target) (hx : x ∈ pairs t) :
     ∃ hst, x.1 ∈ t.get hst ∧ x.2 ∈ x.1.targets := by
-  simp only [pairs, List.mem_flatMap, List.mem_map, List.mem_filter] at hx
-  obtain ⟨hst, _, r, hr, tg, ⟨htg, _⟩, rfl⟩ := hx
+  simp only [pairs, List.mem_flatMap, List.mem_map] at hx
+  obtain ⟨hst, _, r, hr, tg, htg, rfl⟩ := hx
   exact ⟨hst, hr, htg⟩
 
 theorem parse_render (pf : ParseFloat)
